@@ -153,7 +153,8 @@ theorem close_replace_applies (S : Schema) (hdet : DetS S) (hleaf : LeafOk S) (h
   rw [hfrF] at hKf hfpos
   rw [hfrT] at hKt htpos
   -- validity of the levels
-  have hLok := leftOK_of_run S hdet hleaf hf hv _ hsL' hkL (rf.depth - lv.depth) lv.depth fills
+  have hbLok := botLOK_of_sig S hdet hleaf hf hv _ hsL'
+  have hLok := leftOK_of_run S hdet hleaf hf hv _ hbLok hkL (rf.depth - lv.depth) lv.depth fills
     (by have := C.hcD; omega) hfl1 hfl3
   have hRok := rightOK_of_run S hdet hleaf hfl hro hres hv _ hsR hkR (lv.move.depth - lv.depth) lv.depth
     (by have := C.hcM; omega)
@@ -161,7 +162,7 @@ theorem close_replace_applies (S : Schema) (hdet : DetS S) (hleaf : LeafOk S) (h
     have := joinOK_of_run S hdet hleaf hf hres hv C lv.depth 0 (by omega)
     rw [(resolve_resolved hf).node_zero] at this
     exact this
-  have hvc := closeLevel_valid S hdet hleaf hf hres hv C _ _ hsL' hsR
+  have hvc := closeLevel_valid S hdet hleaf hf hres hv C _ _ hbLok hsR
   have hbty : botTy ty0 (framesFrom rf 0 lv.depth) = S.tyOf (rf.node lv.depth) := by
     have := botTy_framesFrom S hf lv.depth 0 (by have := C.hcD; omega)
     rw [(resolve_resolved hf).node_zero, Nat.zero_add] at this
